@@ -853,7 +853,7 @@ static int oom_do(live_t *L, const oop_t *o, int *exact)
     return rc;
 }
 
-typedef struct { live_t *L; const oop_t *op; long nth; int rc0; const cfg_t *c; uint64_t len; live_t *L2; } oomarg_t;
+typedef struct { live_t *L; const oop_t *op; long nth; int rc0; const cfg_t *c; uint64_t len; live_t *L2; ledger_t base; int have_base; } oomarg_t;
 #define OOM_FIRED 1
 #define OOM_SUCCEEDED 2
 #define OOM_ERROR 4
@@ -914,6 +914,14 @@ static int oom_child_create(void *v)
     { live_t L; if (live_open(&L, c, a->len, MO.seed) != 0) mon_viol(OOM_PROP, "oom-next-create-failed", "create after a create that hit an allocation failure does not work");
       else { live_roundtrip(&L, OOM_PROP, "create after failed create", 0); live_close(&L); } }
     q_delta(&q, OOM_PROP, "after the follow-up create/destroy", 0, 1);
+    if (a->L && !a->L2 && a->L->desc > 0 && a->have_base) {
+        /* (in this child only) the one sibling goes away too: with no instance left, everything the library ever allocated is
+         * back - in particular what instances of one backend share (GF tables, plugin handle) and a failed create may have pinned */
+        int d1 = a->L->desc; a->L->desc = -1;
+        if (liberasurecode_instance_destroy(d1) != 0) mon_viol(OOM_PROP, "destroy-failed", "destroy of the sibling after a create that hit an allocation failure failed");
+        qp_t qb; qb.l = a->base;
+        q_delta(&qb, OOM_PROP, "after the last instance was destroyed (baseline taken before any instance existed)", 0, 1);
+    }
     if (a->L && a->L2 && a->L->desc > 0 && a->L2->desc > 0) {
         /* (in this child only) the siblings go away one after the other, in an order that depends on the case; the survivor keeps working */
         live_t *first = (a->nth & 1) ? a->L : a->L2, *second = (a->nth & 1) ? a->L2 : a->L;
@@ -923,6 +931,7 @@ static int oom_child_create(void *v)
         int d2 = second->desc; second->desc = -1;
         if (liberasurecode_instance_destroy(d2) != 0) mon_viol(OOM_PROP, "destroy-failed", "destroy of the last sibling failed");
         if (registry_len() != a->rc0) mon_viol(OOM_PROP, "registry-length", "registry holds %d instances after all siblings were destroyed, expected %d", registry_len(), a->rc0);
+        if (a->have_base) { qp_t qb; qb.l = a->base; q_delta(&qb, OOM_PROP, "after all instances were destroyed (baseline taken before any instance existed)", 0, 1); }
     }
     return fl;
 }
@@ -968,6 +977,7 @@ static void run_oom(void)
         /* the live instance: sibling for the create enumeration, subject of the operation enumeration.  Created by every
          * shard and after every restart (never inside a case) */
         live_t L;
+        ledger_t base0; ledger_get(&base0);
         if (live_open(&L, &c, len, MO.seed) != 0) { if (mon_case_all("%s|oom|setup", ck)) { mon_viol("C16", "setup-failed", "create/encode failed"); mon_end(); } continue; }
         ledger_refresh();
         /* ---- create under allocation failure ---- */
@@ -976,7 +986,7 @@ static void run_oom(void)
         mon_count0("oom_alloc_sites_enumerated", Acreate);
         for (long nth = 1; nth <= Acreate; nth++) {
             if (!mon_case("%s|oom|create|alloc#%ld", ck, nth)) continue;
-            oomarg_t a = { &L, NULL, nth, 0, &c, len }; mon_child_t ch;
+            oomarg_t a = { &L, NULL, nth, 0, &c, len, NULL, base0, 1 }; mon_child_t ch;
             if (mon_fork_run(oom_child_create, &a, &ch) != 0) mon_logf("HARNESS fork failed");
             else oom_account(&ch, "create", nth);
             mon_distinct("nontrivial", mon_hash_u64((uint64_t)nth, mon_hash_str(ck, 160)));
@@ -1040,6 +1050,7 @@ static void run_registry_oomcreate(void)
             cfg_t c2 = c; if (c.be == EC_BACKEND_LIBERASURECODE_RS_VAND) { c2.k = 3; c2.m = 3; c2.hd = 3; }       /* second sibling: same backend, other shape where there is one */
             live_t L, L2; memset(&L2, 0, sizeof L2); L2.desc = -1;
             int base = registry_len();
+            ledger_t base0; ledger_get(&base0);
             if (live_open(&L, &c, (uint64_t)c.k * 29 + 7, MO.seed) != 0) continue;
             if (nsib == 2 && live_open(&L2, &c2, (uint64_t)c2.k * 31 + 3, MO.seed + 1) != 0) { live_close(&L); continue; }
             ledger_refresh();
@@ -1047,7 +1058,7 @@ static void run_registry_oomcreate(void)
             { ledger_fail_arm(1L << 40); int d = lec_create(&c); A = ledger_fail_seen(); ledger_fail_disarm(); if (d > 0) liberasurecode_instance_destroy(d); ledger_refresh(); }
             for (long nth = 1; nth <= A; nth++) {
                 if (!mon_case("%s|oomcreate|siblings=%d|alloc#%ld", ck, nsib, nth)) continue;
-                oomarg_t a = { &L, NULL, nth, base, &c, (uint64_t)c.k * 37 + 5, nsib == 2 ? &L2 : NULL }; mon_child_t ch;
+                oomarg_t a = { &L, NULL, nth, base, &c, (uint64_t)c.k * 37 + 5, nsib == 2 ? &L2 : NULL, base0, 1 }; mon_child_t ch;
                 if (mon_fork_run(oom_child_create, &a, &ch) != 0) mon_logf("HARNESS fork failed");
                 else oom_account(&ch, "create with live siblings", nth);
                 mon_distinct("nontrivial", mon_hash_u64((uint64_t)nth * 4 + (uint64_t)nsib, mon_hash_str(ck, 141)));
